@@ -491,6 +491,7 @@ type Contract struct {
 	Line      int
 	Opts      map[string]string
 	IsTrustedFile bool
+	extraVars map[string]*Val // captured variables of a contracted function literal at a call site
 	implOf  *Contract         // merged implementer contract: the interface contract it refines
 	Aliases map[string]string // extra name -> canonical receiver/parameter/result name
 }
